@@ -1,7 +1,7 @@
 //@ fn SharedHistory::mark_update_done
-//@ closure 1
+//@ closure unwrap_or_else 1 optional
 |_e: OutOfRangeError| -> (r: Duration) ensures r.ns@ == 0
-//@ closure 2
+//@ closure and_then 1 optional
 |c: &Arc<PayloadSnapshot>| -> (r: Option<Time>) ensures r == c.refresh_spec()
 //@ exit
         proof {
